@@ -267,12 +267,11 @@ theorem setBody_spec (neg : Bool) (t : Bytes) (prev : Bool) (hu : underscoresOK 
         | none => (none : Option Dc)
         | some (st, rest) => if !st.sawdigits then none else (tailAdj false rest).map (fun x => mkDc st neg x)) = none) ∧
     (∀ M E, parseBody isDec 10 101 1 false (strip t) = some (M, E) → M < 10 ^ 800 →
-      valOf 10 (expLitDigits isDec (strip t)) < 10000 →
       ∃ d, (match setLoop t {} with
         | none => (none : Option Dc)
         | some (st, rest) => if !st.sawdigits then none else (tailAdj false rest).map (fun x => mkDc st neg x)) = some d ∧
         WF d ∧ d.trunc = false ∧ d.neg = neg ∧ (M = 0 → d.d = []) ∧
-        (M ≠ 0 → d.d ≠ [] ∧ dval d = (M : ℚ) * (10 : ℚ) ^ E)) := by
+        (M ≠ 0 → d.d ≠ [] ∧ dval d = (M : ℚ) * (10 : ℚ) ^ (E + expGap isDec (strip t)))) := by
   have hpb := parseBody_eq2 false (strip t)
   have ed : digS false = isDec := rfl
   have eb : baseOf false = 10 := rfl
@@ -319,10 +318,10 @@ theorem setBody_spec (neg : Bool) (t : Bytes) (prev : Bool) (hu : underscoresOK 
         | some x =>
           obtain ⟨y, hy, hyx⟩ := t2 x hsp
           rw [hy]
-          refine ⟨fun h => by simp at h, fun M E h hM hlit => ?_⟩
+          refine ⟨fun h => by simp at h, fun M E h hM => ?_⟩
           simp only [Option.map_some, Option.some.injEq, Prod.mk.injEq] at h
           obtain ⟨hMe, hEe⟩ := h
-          have hyx' : y = x := hyx (by unfold expLitDigits at hlit; exact hlit)
+          have hyx' : y = x + expGap isDec (strip t) := by unfold expGap; exact hyx
           have hrefM : (refMant false t 0 0 false).1 = M := by rw [href]; exact hMe
           have sinv := setLoop_inv t {} 0 0 sinv_init (by show (refMant false t 0 0 false).1 < 10 ^ 800; rw [hrefM]; exact hM) ss rest' hs
           have hsv : valOf 10 ss.acc.reverse = M := by
@@ -365,7 +364,7 @@ theorem setBody_spec (neg : Bool) (t : Bytes) (prev : Bool) (hu : underscoresOK 
               rw [hnil] at hsv
               exact hM0 (by simpa [valOf] using hsv.symm)
             · show (valOf 10 ss.acc.reverse : ℚ) * (10 : ℚ) ^ ((if !ss.sawdot then (ss.nd : Int) else ss.dp) + y - (ss.acc.reverse.length : Int))
-                  = (M : ℚ) * (10 : ℚ) ^ E
+                  = (M : ℚ) * (10 : ℚ) ^ (E + expGap isDec (strip t))
               rw [hsv]
               congr 2
               rw [List.length_reverse, sinv.len, hyx', ← hEe]
@@ -406,14 +405,15 @@ theorem setBody_zero_letter (neg : Bool) (x : UInt8) (r : Bytes)
 
 /-- **`decimal.set` against the specification's recogniser**, for texts that passed
 `underscoreOK`: it fails exactly when the recogniser rejects the text or sees a hex literal;
-otherwise (mantissa of at most 800 significant digits, exponent literal below the clamp) it
-builds a well-formed, untruncated decimal with the numeral's sign and exact value. -/
+otherwise (mantissa of at most 800 significant digits) it builds a well-formed, untruncated
+decimal with the numeral's sign and the value of the numeral as the code reads it (exponent
+literal clamped: `expGapS`, 0 below 100000). -/
 theorem decSet_spec (s : Bytes) (hu : underscoreOK s = true) :
     (recognise s = none → decSet s = none) ∧
     (∀ p, recognise s = some p → p.hex = true → decSet s = none) ∧
-    (∀ p, recognise s = some p → p.hex = false → p.mant < 10 ^ 800 → expLit s < 10000 →
+    (∀ p, recognise s = some p → p.hex = false → p.mant < 10 ^ 800 →
       ∃ d, decSet s = some d ∧ WF d ∧ d.trunc = false ∧ d.neg = p.neg ∧ (p.mant = 0 → d.d = []) ∧
-        (p.mant ≠ 0 → d.d ≠ [] ∧ dval d = valueOf p)) := by
+        (p.mant ≠ 0 → d.d ≠ [] ∧ dval d = valueOf (clampP p (expGapS s)))) := by
   cases s with
   | nil =>
     have : recognise [] = none := by decide
@@ -421,7 +421,7 @@ theorem decSet_spec (s : Bytes) (hu : underscoreOK s = true) :
   | cons c0 tl =>
     rw [underscoreOK_cons] at hu
     rw [recognise_cons, decSet_cons]
-    unfold expLit
+    unfold expGapS
     rw [splitSign_cons]
     simp only []
     generalize bodyOf c0 tl = body at *
@@ -470,7 +470,7 @@ theorem decSet_spec (s : Bytes) (hu : underscoreOK s = true) :
       rw [ed] at hu
       simp only [h1, Bool.false_eq_true, if_false, hu, Bool.not_true]
       obtain ⟨k1, k2⟩ := setBody_spec (c0 == 45) body false hu
-      refine ⟨fun h => ?_, fun p h hh => ?_, fun p h hh hM hlit => ?_⟩
+      refine ⟨fun h => ?_, fun p h hh => ?_, fun p h hh hM => ?_⟩
       · cases hpb : parseBody isDec 10 101 1 false (strip body) with
         | none => exact k1 hpb
         | some q => rw [hpb] at h; cases h
@@ -485,10 +485,10 @@ theorem decSet_spec (s : Bytes) (hu : underscoreOK s = true) :
           rw [hpb] at h
           simp only [Option.map_some, Option.some.injEq] at h
           subst h
-          obtain ⟨d, e1, e2, e3, e4, e5, e6⟩ := k2 M E hpb hM hlit
+          obtain ⟨d, e1, e2, e3, e4, e5, e6⟩ := k2 M E hpb hM
           refine ⟨d, e1, e2, e3, e4, e5, fun hm0 => ?_⟩
           obtain ⟨f1, f2⟩ := e6 hm0
           refine ⟨f1, ?_⟩
-          rw [f2]; unfold valueOf; simp
+          rw [f2]; unfold valueOf clampP; simp [h1]
 
 end C03
